@@ -259,3 +259,12 @@ pub fn shaped_input(pattern: &str, i: usize, hist: &[ValueType]) -> ValueType {
 		rsx::val_i("x", i)
 	}
 }
+
+/// largest magnitude in a history (the scale M of the rounding allowance)
+pub fn r_maxabs(h: &[ValueType]) -> ValueType {
+	let mut m = 0.0;
+	for a in h {
+		m = r_max(m, (*a).abs());
+	}
+	m
+}
